@@ -4,7 +4,6 @@ import (
 	"archive/zip"
 	"encoding/xml"
 	"errors"
-	"io"
 	"strings"
 )
 
@@ -70,7 +69,7 @@ func hasEncryptedContent(f *zip.File) (bool, error) {
 	}
 	defer rc.Close()
 
-	data, err := io.ReadAll(rc)
+	data, err := readPart(rc)
 	if err != nil {
 		return false, err
 	}
